@@ -36,7 +36,8 @@ OutcomeViol(out, ev, p) ==
     IF out.err = "unmodelled" THEN {}
     ELSE IF out.ok
     THEN IF ev.ok = 1
-         THEN IF Has(ev.res, "fn") /\ FnEq(out.fn, ev.res.fn) THEN {}
+         THEN IF ~Has(ev.res, "fn") THEN {V(p, "result-cannot-be-evaluated-" \o ev.res.oerr)}
+              ELSE IF FnEq(out.fn, ev.res.fn) THEN {}
               ELSE {V(p, "wrong-function")}
          ELSE {V(p, "unexpected-error-" \o ev.err)}
     ELSE IF ev.ok = 1 THEN {V("C16", "no-error-raised-expected-" \o out.err)}
@@ -44,8 +45,12 @@ OutcomeViol(out, ev, p) ==
               ELSE {V("C16", "wrong-error-code-" \o ev.err \o "-expected-" \o out.err)}
 
 \* adopt what the library reports for slot s
+\* (a result the library cannot even evaluate - "oerr" - is adopted as a table
+\* of unknown values, so that later comparisons skip it)
 Observed(res) ==
-    IF res.f < 0 THEN DetachedEdge ELSE [f |-> res.f, fn |-> res.fn]
+    IF res.f < 0 THEN DetachedEdge
+    ELSE IF Has(res, "fn") THEN [f |-> res.f, fn |-> res.fn]
+    ELSE [f |-> res.f, fn |-> [i \in 1..NPts(fors[res.f]) |-> OffGrid]]
 
 AdoptEdge(s, res) == (s :> Observed(res)) @@ edges
 AdoptId(s, res)   == (s :> (IF Has(res, "id") THEN res.id ELSE << >>)) @@ ids
@@ -53,7 +58,8 @@ AdoptId(s, res)   == (s :> (IF Has(res, "id") THEN res.id ELSE << >>)) @@ ids
 \* C01: within one forest, equal identity <=> equal function, for the new
 \* result against every other held edge
 CanonViol(s, res) ==
-    IF res.f < 0 \/ ~Has(res, "id") \/ HasOff(res.fn) THEN {}
+    IF res.f < 0 \/ ~Has(res, "id") \/ ~Has(res, "fn") THEN {}
+    ELSE IF HasOff(res.fn) THEN {}
     ELSE LET others == {t \in DOMAIN edges \ {s} :
                             /\ edges[t].f = res.f
                             /\ t \in DOMAIN ids /\ ids[t] # << >>
@@ -161,6 +167,7 @@ DoDFor(ev) ==
 EdgeViol(expected, res, p) ==
     IF expected.f # res.f THEN {V(p, "edge-attached-to-wrong-forest")}
     ELSE IF expected.f = NoForest THEN {}
+    ELSE IF ~Has(res, "fn") THEN {V(p, "edge-cannot-be-evaluated-" \o res.oerr)}
     ELSE IF FnEq(expected.fn, res.fn) THEN {} ELSE {V(p, "edge-denotes-wrong-function")}
 
 DoNew(ev) ==
@@ -230,7 +237,7 @@ ObsViol(E) ==
 
 \* C01 over all observed edges
 ObsCanonViol(E) ==
-    LET idx == {x \in 1..Len(E) : E[x].f >= 0 /\ ~HasOff(E[x].fn)}
+    LET idx == {x \in 1..Len(E) : E[x].f >= 0 /\ Has(E[x], "fn") /\ ~HasOff(E[x].fn)}
         bad == {<<x, y>> \in idx \X idx :
                     x < y /\ E[x].f = E[y].f /\ ((E[x].id = E[y].id) # (E[x].fn = E[y].fn))}
     IN IF bad = {} THEN {} ELSE {V("C01", "identity-vs-function")}
